@@ -25,6 +25,14 @@ BUDGET = {"quick": 80, "thorough": 800}
 def cases(draw, thorough=False):
     spec = draw(gens.problems(max_surveys=3, max_epochs=16 if thorough else 8, max_poly=3, n_rows=(2, 5), units=True))
     spec["path"] = draw(st.sampled_from(["mem", "cache"]))
+    if len(spec["surveys"]) > 1:
+        mode = draw(st.sampled_from(["default", "default", "shared", "distinct"]))
+        tmin = min(x for sv_ in spec["surveys"] for x in sv_["t"])
+        if mode == "shared":
+            spec["member_t_ref"] = [gens.rounded(tmin - draw(gens.fl(0.5, 50.0)), 9)] * len(spec["surveys"])
+        elif mode == "distinct":
+            spec["member_t_ref"] = [gens.rounded(tmin - draw(gens.fl(0.5, 50.0)), 9) for _ in spec["surveys"]]
+        spec["member_t_ref_scale"] = draw(st.sampled_from(["tcb", "utc"]))
     spec["rng_seed"] = draw(st.integers(0, 2**32 - 1))
     n_lin = 1 + spec["prior"]["poly_trend"] + len(spec["prior"]["offsets"])
     spec["x"] = [[gens.rounded(draw(gens.fl(-3, 3)), 9) for _ in range(n_lin)] for _ in spec["rows"]]
@@ -75,7 +83,10 @@ def body_factory(ctx):
             for r in range(1, prob.n_offsets + 1):
                 k = int(np.where(prob.col_of_survey == r)[0][0])
                 yprime[prob.ids == k] -= x[1 + r]
-            dprime = tj.RVData(t=Time(prob.t, format="mjd", scale="tcb"), rv=yprime * du, rv_err=prob.err * du,
+            # (uncertainties quoted in another, equivalent unit than the velocities: valid input)
+            eu = og.unit([x for x in og.VEL_UNITS if og.unit(x) != du][(i + spec["rng_seed"]) % (len(og.VEL_UNITS) - 1)]) \
+                if spec["rng_seed"] % 3 == 0 else du
+            dprime = tj.RVData(t=Time(prob.t, format="mjd", scale="tcb"), rv=yprime * du, rv_err=(prob.err * du).to(eu),
                                t_ref=Time(prob.t_ref, format="mjd", scale="tcb"))
             with ctx.sut("ln_unmarginalized_likelihood"):
                 lu = float(smp[i:i + 1].ln_unmarginalized_likelihood(dprime)[0]) if len(smp) > 1 else float(smp.ln_unmarginalized_likelihood(dprime)[0])
@@ -146,7 +157,10 @@ def body_factory(ctx):
             rows_w = [dict(r, omega=float(hb["omega"][i].to_value(u.rad))) for i, r in enumerate(rows_eff)]
             check_rows(spec, prob, data, prob.t_ref, hb, xs_w, rows_w, "hand-built rows after wrap_K")
         # ---------------- (ii) rows returned by the sampler
-        joker = tj.TheJoker(prior, rng=np.random.default_rng(spec["rng_seed"]))
+        from vt.recgen import RecordingGenerator, RecordingPool
+        rg = RecordingGenerator(np.random.PCG64(spec["rng_seed"]))
+        rpool = RecordingPool(size=1)
+        joker = tj.TheJoker(prior, rng=rg, pool=rpool)
         liblp = gens.build_samples(spec, extra={"ln_prior": -0.5 * np.arange(len(lib), dtype=float)})
         with ctx.sut("rejection_sample(return_logprobs=True)"):
             out = joker.rejection_sample(data, liblp, return_logprobs=True, in_memory=spec["path"] == "mem",
@@ -169,6 +183,20 @@ def body_factory(ctx):
             if not np.all(np.isfinite(x)):
                 finite = False
             xs_out.append(x)
+        # the linear parameters of a returned row are the very vector x the sampler drew for it (the coefficients of its own
+        # design-matrix columns K, v0, offsets, trend): only then is the reconstructed orbit the sampler's model
+        mvn = rg.calls("multivariate_normal") if spec["path"] == "mem" else \
+            [c for log in rpool.child_logs for c in log if c["name"] == "multivariate_normal"]
+        if len(mvn) == len(out):
+            for i, c_ in enumerate(mvn):
+                drawn = np.asarray(c_["out"], dtype=float).reshape(-1)
+                if drawn.shape == xs_out[i].shape and np.all(np.isfinite(drawn)) and \
+                        not np.allclose(xs_out[i], drawn, rtol=1e-12, atol=1e-300):
+                    raise Violation("the linear parameters reported for a returned row are not the coefficients (K, v0, offsets, "
+                                    "trend, in the order of the sampler's design matrix) that the sampler drew for it",
+                                    names=names, row_values=xs_out[i], drawn=drawn)
+        else:
+            ctx.classes["draws could not be paired with rows (not judged)"] += 1
         # reported ln_likelihood == closed-form marginal (C01 comparison; recorded defects are recognised there)
         c01.compare_rows(ctx, prob, rows_out, np.asarray(out["ln_likelihood"], dtype=float), spec)
         nt2 = False
